@@ -3,15 +3,18 @@
    owner rwx bits are consulted, umask 022, no hard links / mounts / ACLs.  Validated by its own
    correspondence stream (random primitive-op sequences on a real directory as an unprivileged
    uid).  Definitions only; frame lemmas in FSFacts.v. *)
-From LV Require Import Base.
+From LV Require Import Base Toml.
 
 Definition name := bytes.
 Definition path := list name.          (* absolute from the sandbox root; [] = the root directory *)
 
-Inductive content := Raw (b : bytes).  (* file bytes; TOML documents are parsed by Toml.v readers *)
+(* file contents: raw bytes, or -- for the designated TOML paths of a stream -- the parsed document
+   in canonical form (the harness parses with an independent TOML reader; text that is not valid
+   TOML stays Raw).  The empty file is the empty document. *)
+Inductive content := Raw (b : bytes) | Doc (t : tv).
 
 Inductive node :=
-| File (mode : N) (c : bytes)
+| File (mode : N) (c : content)
 | Dir (mode : N)
 | Link (target : bytes).               (* raw target string, '/'-separated, absolute iff it starts with '/' *)
 
@@ -202,7 +205,7 @@ Definition mkdir (p : path) : M unit :=
            end.
 
 (* fs::write: create/truncate, following a final symlink *)
-Definition write_file_mode (mode_new : N) (keep_mode : bool) (p : path) (data : bytes) : M unit :=
+Definition write_file_mode (mode_new : N) (keep_mode : bool) (p : path) (data : content) : M unit :=
   fun s => match resolve s p true with
            | Err e => (s, Err e)
            | Ok rp =>
@@ -224,7 +227,7 @@ Definition write_file_mode (mode_new : N) (keep_mode : bool) (p : path) (data : 
 Definition write_file := write_file_mode mode_file_default true.
 
 (* fs::read *)
-Definition read_file (p : path) : M (N * bytes) :=
+Definition read_file (p : path) : M (N * content) :=
   fun s => match resolve s p true with
            | Err e => (s, Err e)
            | Ok rp =>
@@ -368,9 +371,18 @@ Definition copy_file (src dst : path) : M unit :=
   chmod dst (fst mc).
 
 (* ---------- boolean equality for case evaluation ---------- *)
+Definition content_eqb (a b : content) : bool :=
+  match a, b with
+  | Raw x, Raw y => beq x y
+  | Doc x, Doc y => tv_eqb x y
+  | _, _ => false
+  end.
+
+Definition content_bytes (c : content) : bytes := match c with Raw b => b | Doc _ => [] end.
+
 Definition node_eqb (a b : node) : bool :=
   match a, b with
-  | File m c, File m' c' => (m =? m') && beq c c'
+  | File m c, File m' c' => (m =? m') && content_eqb c c'
   | Dir m, Dir m' => m =? m'
   | Link t, Link t' => beq t t'
   | _, _ => false
